@@ -12,6 +12,7 @@ INVARIANT RoundTrip
 INVARIANT WFAgree
 INVARIANT EncTotal
 INVARIANT WalkInv
+INVARIANT PathShape
 INVARIANT StepBound
 INVARIANT DocHolds
 INVARIANT DecValue
